@@ -163,6 +163,62 @@ def _tree_to_expr(stmts):
     return None
 
 
+def _merge_leading_temps(body, params):
+    """helper bodies only: `t = E` directly followed by the one statement that reads t, t being the first thing that statement
+    evaluates  ->  the statement with E in place of t.  (`p = d.get(k, {}); return p.get('x') is True` becomes one expression and
+    the helper can be inlined into a condition.)  Evaluation order is unchanged."""
+    from .model import _first_evaluated, _replace_name, _copy_tree
+    body = list(body)
+    while len(body) >= 2:
+        a, b = body[0], body[1]
+        if not (isinstance(a, ast.Assign) and len(a.targets) == 1 and isinstance(a.targets[0], ast.Name)):
+            break
+        t = a.targets[0].id
+        loads = sum(1 for s in body for n in ast.walk(s) if isinstance(n, ast.Name) and n.id == t and isinstance(n.ctx, ast.Load))
+        stores = sum(1 for s in body for n in ast.walk(s) if isinstance(n, ast.Name) and n.id == t and isinstance(n.ctx, (ast.Store, ast.Del)))
+        e = b.value if isinstance(b, (ast.Return, ast.Assign, ast.Expr)) else b.test if isinstance(b, ast.If) else None
+        if _call_free(a.value) and stores == 1 and t not in params and loads >= 1:
+            # a call-free value (arithmetic on parameters and attributes) may be written out at every use, wherever it is --
+            # provided nothing it is made of is assigned in the helper
+            rest = body[1:]
+            made_of = {n.id for n in ast.walk(a.value) if isinstance(n, ast.Name)}
+            assigned = {n.id for s_ in rest for n in ast.walk(s_) if isinstance(n, ast.Name) and isinstance(n.ctx, (ast.Store, ast.Del))}
+            attr_assigned = any(isinstance(n, (ast.Attribute, ast.Subscript)) and isinstance(n.ctx, (ast.Store, ast.Del)) for s_ in rest for n in ast.walk(s_))
+            scoped = any(isinstance(n, (ast.Lambda, ast.FunctionDef, ast.ListComp, ast.SetComp, ast.DictComp, ast.GeneratorExp)) and
+                         any(isinstance(x, ast.Name) and x.id == t for x in ast.walk(n)) for s_ in rest for n in ast.walk(s_))
+            has_attr = any(isinstance(n, (ast.Attribute, ast.Subscript)) for n in ast.walk(a.value))
+            if not (made_of & assigned) and not (has_attr and attr_assigned) and not scoped:
+                class W(ast.NodeTransformer):
+                    def visit_Name(self, n):
+                        if n.id == t and isinstance(n.ctx, ast.Load):
+                            return _copy_tree(a.value)
+                        return n
+                body = [ast.fix_missing_locations(W().visit(_copy_tree(s_))) for s_ in rest]
+                continue
+        if t in params or loads != 1 or stores != 1:
+            break
+        if e is None or not _first_evaluated(e, t):
+            break
+        b2 = _copy_tree(b)
+        if isinstance(b2, ast.If):
+            holder = ast.Expr(value=b2.test)
+            _replace_name(holder, t, _copy_tree(a.value))
+            b2.test = holder.value
+        else:
+            if isinstance(b2.value, ast.Name) and b2.value.id == t:
+                b2.value = _copy_tree(a.value)
+            else:
+                _replace_name(b2.value, t, _copy_tree(a.value))
+        ast.fix_missing_locations(b2)
+        body = [b2] + body[2:]
+    return body
+
+
+def _call_free(e):
+    return not any(isinstance(n, (ast.Call, ast.Await, ast.Yield, ast.YieldFrom, ast.NamedExpr, ast.Lambda, ast.ListComp, ast.SetComp,
+                                  ast.DictComp, ast.GeneratorExp, ast.Starred)) for n in ast.walk(e))
+
+
 class _Callee:
     def __init__(self, rel, qual, node, cls):
         self.rel, self.qual, self.node, self.cls = rel, qual, node, cls
@@ -201,6 +257,7 @@ class _Callee:
         body = list(node.body)
         if body and isinstance(body[0], ast.Expr) and isinstance(body[0].value, ast.Constant) and isinstance(body[0].value.value, str):
             body = body[1:]
+        body = _merge_leading_temps(body, set(x.arg for x in a.args + a.kwonlyargs))
         q = _as_quantifier(body)
         self.quantified = q is not None
         if q is not None:
@@ -807,6 +864,84 @@ def overridden_below(classes, cls, meth):
     return False
 
 
+class _QuantToLoop(ast.NodeTransformer):
+    """return all(E for t in it [if c])  ->  for t in it: [if c:] if not E: return False; return True     (any: dually)
+    only where E calls one of `names` (helpers that consist of statements and therefore cannot be inlined into an expression)"""
+
+    def __init__(self, names):
+        self.names = names
+
+    def _blocks(self, node):
+        for fld in ('body', 'orelse', 'finalbody'):
+            blk = getattr(node, fld, None)
+            if isinstance(blk, list) and blk and isinstance(blk[0], ast.stmt):
+                new = []
+                for st in blk:
+                    new.extend(self._stmt(st))
+                setattr(node, fld, new)
+        for h in getattr(node, 'handlers', []) or []:
+            self._blocks(h)
+
+    def _stmt(self, st):
+        if isinstance(st, ast.Return) and isinstance(st.value, ast.Call) and isinstance(st.value.func, ast.Name) and \
+                st.value.func.id in ('all', 'any') and len(st.value.args) == 1 and not st.value.keywords and \
+                isinstance(st.value.args[0], (ast.GeneratorExp, ast.ListComp)) and len(st.value.args[0].generators) == 1:
+            gen = st.value.args[0].generators[0]
+            elt = st.value.args[0].elt
+            calls = [n for n in ast.walk(elt) if isinstance(n, ast.Call) and
+                     ((isinstance(n.func, ast.Name) and n.func.id in self.names) or (isinstance(n.func, ast.Attribute) and n.func.attr in self.names))]
+            if calls and not gen.is_async:
+                is_all = st.value.func.id == 'all'
+                test = ast.UnaryOp(op=ast.Not(), operand=elt) if is_all else elt
+                inner = ast.If(test=test, body=[ast.Return(value=ast.Constant(value=not is_all))], orelse=[])
+                for c in reversed(gen.ifs):
+                    inner = ast.If(test=c, body=[inner], orelse=[])
+                loop = ast.For(target=gen.target, iter=gen.iter, body=[inner], orelse=[], type_comment=None)
+                for n in ast.walk(loop.target):
+                    if isinstance(n, ast.Name):
+                        n.ctx = ast.Store()
+                out = [ast.copy_location(loop, st), ast.copy_location(ast.Return(value=ast.Constant(value=is_all)), st)]
+                for o in out:
+                    ast.fix_missing_locations(o)
+                return out
+        # `return [E for t in it if c]` / `x = [E for ...]` with such a helper in E: the accumulator loop
+        if isinstance(st, (ast.Return, ast.Assign)) and isinstance(st.value, ast.ListComp) and len(st.value.generators) == 1 and \
+                not st.value.generators[0].is_async and \
+                (isinstance(st, ast.Return) or (len(st.targets) == 1 and isinstance(st.targets[0], ast.Name))):
+            comp = st.value
+            gen = comp.generators[0]
+            calls = [n for n in ast.walk(comp.elt) if isinstance(n, ast.Call) and
+                     ((isinstance(n.func, ast.Name) and n.func.id in self.names) or (isinstance(n.func, ast.Attribute) and n.func.attr in self.names))]
+            acc = st.targets[0].id if isinstance(st, ast.Assign) else 'collected__items'
+            used = {n.id for n in ast.walk(comp) if isinstance(n, ast.Name)}
+            if calls and acc not in used:
+                inner = ast.Expr(value=ast.Call(func=ast.Attribute(value=ast.Name(id=acc, ctx=ast.Load()), attr='append', ctx=ast.Load()),
+                                                args=[comp.elt], keywords=[]))
+                for c in reversed(gen.ifs):
+                    inner = ast.If(test=c, body=[inner], orelse=[])
+                loop = ast.For(target=gen.target, iter=gen.iter, body=[inner], orelse=[], type_comment=None)
+                for n in ast.walk(loop.target):
+                    if isinstance(n, ast.Name):
+                        n.ctx = ast.Store()
+                out = [ast.Assign(targets=[ast.Name(id=acc, ctx=ast.Store())], value=ast.List(elts=[], ctx=ast.Load()), type_comment=None), loop]
+                if isinstance(st, ast.Return):
+                    out.append(ast.Return(value=ast.Name(id=acc, ctx=ast.Load())))
+                for o in out:
+                    ast.copy_location(o, st)
+                    ast.fix_missing_locations(o)
+                return out
+        if not isinstance(st, (ast.FunctionDef, ast.AsyncFunctionDef, ast.ClassDef)):
+            self._blocks(st)
+        return [st]
+
+    def visit_FunctionDef(self, fn):
+        self.generic_visit(fn)
+        self._blocks(fn)
+        return fn
+
+    visit_AsyncFunctionDef = visit_FunctionDef
+
+
 def normalise(trees, known=None, sources=None):
     """trees: rel -> ast.Module (not modified).  -> (dict rel -> new tree for the modules that changed, report)"""
     known = load_known() if known is None else known
@@ -857,6 +992,11 @@ def normalise(trees, known=None, sources=None):
         if hit:
             from .model import normalise_tree
             changed[rel] = normalise_tree(ast.parse(sources[rel], filename=rel))     # fresh tree without parent links
+    # `return all(helper(x) for x in xs)` with a helper that needs statements: back to the loop form, where it can be inlined
+    stmt_callees = {nm.split('.')[-1] for nm, c in callees.items() if not c.pure_expr and c.truth_expr is None}
+    for rel, t in changed.items():
+        _QuantToLoop(stmt_callees).visit(t)
+        ast.fix_missing_locations(t)
     # callees must be taken from the copies (their own bodies get inlined calls first: bottom-up by recursion depth)
     for rel, t in changed.items():
         for qual, node, cls, _ in function_index(t):
@@ -915,7 +1055,12 @@ def normalise(trees, known=None, sources=None):
                     progress = True
         if not progress:
             break
+    from .simplify import simplify_tree
+    from .localnames import restore_module
     for rel, t in changed.items():
+        # the inlined bodies bring their own named conditions and literal tables: same normal forms as at parse time
+        simplify_tree(t)
+        restore_module(rel, t, sources[rel])
         ast.fix_missing_locations(t)
         reparent(t)
     return changed, report
